@@ -90,7 +90,7 @@ theorem Signal.d9_idle (t : Tid) : Signal.d9.pc t = .idle := by
 theorem Monitor.d11_idle (t : Tid) : Monitor.d11.pc t = .idle := by
   by_cases h1 : t = 1 <;> by_cases h2 : t = 2 <;>
     simp [Monitor.d11, Monitor.d10, Monitor.d9, Monitor.d8, Monitor.d7, Monitor.d6, Monitor.d5, Monitor.d4, Monitor.d3,
-      Monitor.d2, Monitor.d1, Monitor.d0, Monitor.step, Monitor.init, Monitor.done, Monitor.goto, Monitor.markSaw,
+      Monitor.d2, Monitor.d1, Monitor.d0, Monitor.step, Monitor.init, Monitor.done, Monitor.goto, Monitor.afterSignal, Monitor.markSaw,
       Monitor.wake, Option.getD, upd, h1, h2]
 
 end Nstd.Sync
